@@ -24,6 +24,12 @@ for d in sorted(glob.glob('/verif/seeded/*/')):
     meta['confirmed_here']=meta.get('confirmed_here') or ("re-run in the sub-agent's scratch worktree by tools/verify_seeded.sh: patch applies on a clean checkout; "
         "repository suite (nextest, 8 threads) with the change applied: 64 passed + the always-failing panicking_panics_with_future_queues (known-flaky tests ignored); "
         "demo run twice with the change (failed both times) and twice without (passed both times)")
+    if meta.get('framework_manual'):
+        fm=meta['framework_manual']
+        meta['framework']=fm
+        json.dump(meta,open(mp,'w'),indent=1)
+        rows.append((sid,meta.get('title','')[:110],fm.get('tier','quick')+' ('+fm.get('by','')+')',fm.get('cases_until_detection'),(fm.get('first_violation_line') or '')[:90]))
+        continue
     meta['framework']={'caught_by_own_property_check':caught,'check':use.get('check'),'cases_until_detection':use.get('cases'),'first_violation_line':use.get('first_violation'),'other_oracles_that_fired':use.get('other')}
     json.dump(meta,open(mp,'w'),indent=1)
     rows.append((sid,meta.get('title','')[:110],caught,use.get('cases'),(use.get('first_violation') or '')[:90]))
@@ -33,5 +39,5 @@ with open('/verif/seeded/RESULTS.md','w') as f:
     f.write("| id | change | caught by own check | cases | first violation |\n|---|---|---|---|---|\n")
     for r in rows: f.write("| %s | %s | %s | %s | %s |\n"%r)
     n=len(rows); c=sum(1 for r in rows if r[2]!='no')
-    f.write("\n%d of %d caught (quick: %d).\n"%(c,n,sum(1 for r in rows if r[2]=='quick')))
+    f.write("\n%d of %d caught (quick: %d).\n"%(c,n,sum(1 for r in rows if str(r[2]).startswith('quick'))))
 print(open('/verif/seeded/RESULTS.md').read()[-300:])
